@@ -9,7 +9,7 @@ from . import common, cmpmodel, layout, panics, simd, hexcodec, c11
 BACKEND_MODS = r"::(x86_(sse2|ssse3|sse4_1|avx2)|arm_neon|wasm32_simd128)::"
 
 ID = "C17"
-CONFIGS = {"quick": ["K0", "K8", "K13", "K17"], "thorough": ["K0", "K1", "K8", "K11", "K13", "K14a", "K14b", "K14c", "K16", "K17", "K19", "K20"]}
+CONFIGS = {"quick": ["K0", "K7", "K8", "K13", "K17"], "thorough": ["K0", "K1", "K2", "K5", "K6", "K7", "K8", "K11", "K13", "K14a", "K14b", "K14c", "K16", "K17", "K19", "K20"]}
 FIXTURES = {"panic", "taint"}
 META = {
     "explanation": (
@@ -378,9 +378,12 @@ def panic_sites(ctx, F):
     r = "R-17.6"
     ctx.rule(r, "explicit panic sites (unwrap/expect/assert!/indexing/overflow and bounds checks) reachable from the public API are discharged by a named idiom, "
                 "documented, or listed as not decided", "N")
-    roots = [b.path for b in F.bodies if b.kind in ("Fn", "AssocFn") and not any(re.search(g, b.path) for g in GENERATED)]
+    # roots: every function a user of the crate can name or reach through a public type/trait (the compiler's effective
+    # visibility); everything they call at run time is followed (constant initialisers are not: they run in the compiler)
+    roots = [b.path for b in F.bodies if b.kind in ("Fn", "AssocFn") and b.d.get("reachable") and not any(re.search(g, b.path) for g in GENERATED)]
     envs = layout.variant_envs(F)
     sites, reach, G = panics.collect(F, roots)
+    panics.RUNTIME_REACH[0] = set(reach)
     sites = [s for s in sites if not any(re.search(g, s.body.path) for g in GENERATED)]
     panics.discharge(F, sites, envs)
     extra_idioms(F, sites, envs)
